@@ -4,14 +4,15 @@
    and a final "TOTAL n" line. *)
 let () =
   let domain = Sys.argv.(1) in
+  let one f c r = match f c r with None -> [] | Some x -> [x] in
   let eval, oracle = match domain with
-    | "semver" -> D_semver.eval, D_semver.oracle
-    | "ranges" | "rangeord" | "rangeq" -> D_ranges.eval, D_ranges.oracle
-    | "terms" | "bitset" -> D_terms.eval, D_terms.oracle
-    | "offline" -> D_offline.eval, D_offline.oracle
-    | "serde" -> D_serde.eval, D_serde.oracle
-    | "solver" | "faults" -> D_solver.eval, D_solver.oracle
-    | "report" | "collapse" -> D_report.eval, D_report.oracle
+    | "semver" -> D_semver.eval, one D_semver.oracle
+    | "ranges" | "rangeord" | "rangeq" -> D_ranges.eval, one D_ranges.oracle
+    | "terms" | "bitset" -> D_terms.eval, one D_terms.oracle
+    | "offline" -> D_offline.eval, one D_offline.oracle
+    | "serde" -> D_serde.eval, one D_serde.oracle
+    | "solver" | "faults" -> D_solver.eval, D_solver.oracles
+    | "report" | "collapse" -> D_report.eval, one D_report.oracle
     | _ -> failwith "unknown domain" in
   let n = ref 0 in
   (try
@@ -24,9 +25,8 @@ let () =
         let c = Sx.parse case in
         let model = (try eval c with e -> "MODEL-EXCEPTION " ^ Printexc.to_string e) in
         if model <> rust then Printf.printf "MISMATCH\t%s\t%s\t%s\n" case rust model;
-        (match (try oracle c rust with e -> Some ("?", "ORACLE-EXCEPTION " ^ Printexc.to_string e)) with
-         | None -> ()
-         | Some (prop, why) -> Printf.printf "PROPFAIL\t%s\t%s\t%s\t%s\n" prop case rust why)
+        List.iter (fun (prop, why) -> Printf.printf "PROPFAIL\t%s\t%s\t%s\t%s\n" prop case rust why)
+          (try oracle c rust with e -> [("?", "ORACLE-EXCEPTION " ^ Printexc.to_string e)])
     done
   with End_of_file -> ());
   Printf.printf "TOTAL %d\n" !n
